@@ -46,7 +46,18 @@ func init() {
 			if tier == "enum-base" {
 				o = genOpts{chains: []string{"lbtc"}, duration: []int{300}}
 			}
-			return genPlan(t, o)
+			p := genPlan(t, o)
+			if tier != "enum-base" && rapid.IntRange(0, 3).Draw(t, "catching-up") == 0 {
+				// a node's liquid back-end is catching up for a while (after its own restart, a
+				// re-sync, a fail-over): it reports a tip below the one the swap was anchored at
+				from := pick(t, "cufrom", []int{2030, 2500, 8000, 20000})
+				p.Faults = append(p.Faults, world.Fault{Node: rapid.IntRange(0, 1).Draw(t, "cunode"), Site: "lbtc.rpc.height", Kind: "behind", Ms: pick(t, "cuback", []int{1, 3, 100}),
+					FromMs: from, ToMs: from + pick(t, "culen", []int{15000, 60000, 300000})})
+				for i := range p.Scn.LiquidBackend {
+					p.Scn.LiquidBackend[i] = "elementsd"
+				}
+			}
+			return p
 		},
 		Monitors:   world.MonitorsFor("C13"),
 		Nontrivial: func(r *world.Result) bool { return probe(r, "C13:pubkey-sent") },
@@ -284,6 +295,14 @@ func init() {
 					p.SchedSeed = rapid.Uint64Range(1, 1<<32).Draw(t, "twinsched")
 					p.SchedRate = pick(t, "twinrate", []int{100, 300, 500})
 				}
+			}
+			if rapid.IntRange(0, 4).Draw(t, "dup-request") == 0 && len(p.Ops) > 0 {
+				// the request is delivered twice (a redelivery) and the second copy arrives while the
+				// first is still being checked against a slow Lightning back-end
+				resp := 1 - p.Ops[0].Node
+				p.Net = []world.NetFault{{Idx: 1, Kind: "dup"}}
+				p.Scn.NetLatencyMs = pick(t, "duplat", []int{10, 50})
+				p.Faults = append(p.Faults, world.Fault{Node: resp, Site: pick(t, "dupsite", []string{"ln.receivable", "ln.spendable", "ln.probe", "ln.spendable"}), Kind: "slow", Ms: pick(t, "dupslow", []int{300, 2000}), FromMs: 0, ToMs: 20000})
 			}
 			return p
 		},
